@@ -13,7 +13,7 @@ THOROUGH = dict(worlds=256, runs=4000, seconds=30)
 RULE = ("seeded lint-clean circuits x 6-14 partial-assignment queries; distinct = canonical net + queries "
         "fingerprint; non-trivial = at least one SAT and the circuit has >= 2 gates")
 PROBES = ["parity3+", "auxlike_with_parity", "unsat_answer", "sat_internal_assumption", "cyclic_0_stable",
-          "cyclic_2+_stable", "bb", "multi1"]
+          "cyclic_2+_stable", "bb", "multi1", "query_after_inplace_edit"]
 ASSUMPTIONS = ["no 'x' constants (the encoder rejects them)", "<= 10 startpoints (CNF model set compared exhaustively up to 8), <= 22 nodes acyclic, <= 14 nodes cyclic, gates up to 11 operands"]
 
 
@@ -62,16 +62,46 @@ def gen(rng, tier):
             k = len(pool) if mode == "full" else rng.randint(1, len(pool))
             q = {n: rng.random() < 0.5 for n in rng.sample(pool, k)}
         queries.append(q)
-    return {"net": net, "queries": queries,
+    edits = []
+    if rng.random() < 0.3:
+        # history: the same Circuit object is edited in place between queries (a gate's function changes, the wiring
+        # stays); every query after an edit must answer for the circuit as it is now
+        gl = [n for n, v in net["nodes"].items() if v[0] in ref.GATES]
+        for _ in range(rng.randint(1, 2)):
+            if not gl:
+                break
+            g = rng.choice(gl)
+            t = net["nodes"][g][0]
+            pool = ("buf", "not") if t in ("buf", "not") else ref.MULTI
+            edits.append([g, rng.choice([x for x in pool if x != t])])
+    return {"net": net, "queries": queries, "edits": edits,
             "peer": {"seed": rng.getrandbits(32), "policy": rng.choice(("inputs_first", "random", "inputs_last",
                                                                         "prefer_true", "prefer_false"))}}
 
 
 def run(case, ctx):
+    import copy
     cg = ctx.cg
     net = case["net"]
     if not ref.is_lint_clean(net):
         raise Skip("not lint clean")
+    c = ref.build(cg, net)
+    _round(case, ctx, net, c, 0)
+    for k, (g, t) in enumerate(case.get("edits") or []):
+        if g not in net["nodes"] or net["nodes"][g][0] not in ref.GATES:
+            continue
+        net = copy.deepcopy(net)
+        net["nodes"][g][0] = t
+        if not ref.is_lint_clean(net):
+            break
+        c.set_type(g, t)          # in-place edit (public mutator) of the object the library has already seen
+        ctx.probe("query_after_inplace_edit")
+        ctx.log("edit", g, t)
+        _round(case, ctx, net, c, k + 1)
+
+
+def _round(case, ctx, net, c, rnd):
+    cg = ctx.cg
     nodes = net["nodes"]
     names = sorted(nodes)
     cyc = ref.is_cyclic(net)
@@ -82,7 +112,6 @@ def run(case, ctx):
         ctx.probe(f)
     if any("xor_" in n or n.startswith("not_") or n.startswith("and_") for n in names) and "parity3+" in G.features(net):
         ctx.probe("auxlike_with_parity")
-    c = ref.build(cg, net)
     for n, (t, fi, o) in nodes.items():
         if len(fi) >= 3:
             ctx.observe_order(c.fanin(n))
@@ -93,7 +122,7 @@ def run(case, ctx):
         k = len(order)
     else:
         tts, forder, full = ref.truth_tables(net, free)
-    sig0 = {"types": sorted({v[0] for v in nodes.values()}), "cyclic": cyc}
+    sig0 = {"types": sorted({v[0] for v in nodes.values()}), "cyclic": cyc, "after_edit": rnd > 0}
 
     def sat_possible(A):
         if small:
@@ -111,6 +140,7 @@ def run(case, ctx):
         return all(((tts[n] >> i) & 1) == int(bool(val[n])) for n in names)
 
     # (b) CNF models restricted to circuit nodes == consistent valuations
+    ctx.warm(cg.sat.cnf, c)
     try:
         formula, variables = cg.sat.cnf(c)
         clauses = [list(x) for x in formula.clauses]
@@ -171,8 +201,10 @@ def run(case, ctx):
     n_sat = 0
     for qi, A in enumerate(case["queries"]):
         bad = [n for n in A if n not in nodes]
+        a_obj = dict(A)
+        ctx.warm(cg.sat.solve, c, a_obj)
         try:
-            res = cg.sat.solve(c, dict(A))
+            res = cg.sat.solve(c, a_obj)
             exc = None
         except Exception as e:
             res, exc = None, e
@@ -213,7 +245,7 @@ def run(case, ctx):
 
 
 def sig_key(sig):
-    return (sig.get("kind"), sig.get("exc"))
+    return (sig.get("kind"), sig.get("exc"), sig.get("after_edit"))
 
 
 def shrink(case):
@@ -234,6 +266,11 @@ def shrink(case):
             q2 = dict(q)
             del q2[k]
             yield dict(case, queries=qs[:i] + [q2] + qs[i + 1:])
+    ed = case.get("edits") or []
+    if ed:
+        yield dict(case, edits=[])
+        for i in range(len(ed)):
+            yield dict(case, edits=ed[:i] + ed[i + 1:])
     if case["peer"].get("policy") != "inputs_first":
         yield dict(case, peer=dict(case["peer"], policy="inputs_first"))
 
